@@ -4,7 +4,7 @@ import traceback
 from fractions import Fraction
 import z3
 from .core import Ctx, explore, Unsupported, StaleContract, PathEnd, Obligation
-from .solver import discharge, check_sat
+from .solver import discharge, check_sat, SYMCACHE
 from .values import base_axioms
 
 
@@ -50,6 +50,7 @@ def run_unit(unit, tier="quick", prefix=(), split=0):
                 v, _, _, _ = check_sat(list(c.pc), 5000, use_cvc5=False)
                 out["canary"] = {"sat": "ok", "unknown": "unknown", "unsat": "VACUOUS"}[v]
                 first = False
+            SYMCACHE.clear()
             for ob in res.obligations:
                 discharge(ob, timeout)
                 out["solver_s"] += ob.secs
@@ -77,6 +78,17 @@ def run_unit(unit, tier="quick", prefix=(), split=0):
     return out
 
 
+def _frac(v):
+    if z3.is_int_value(v):
+        return Fraction(v.as_long())
+    if z3.is_rational_value(v):
+        return Fraction(v.numerator_as_long(), v.denominator_as_long())
+    if z3.is_algebraic_value(v):
+        a = v.approx(20)
+        return Fraction(a.numerator_as_long(), a.denominator_as_long())
+    return None
+
+
 def _num(v):
     """python number of a z3 model value (rational / algebraic / int / bool)."""
     if z3.is_true(v):
@@ -85,12 +97,51 @@ def _num(v):
         return False
     if z3.is_int_value(v):
         return v.as_long()
-    if z3.is_rational_value(v):
-        return float(Fraction(v.numerator_as_long(), v.denominator_as_long()))
-    if z3.is_algebraic_value(v):
-        a = v.approx(20)
-        return float(Fraction(a.numerator_as_long(), a.denominator_as_long()))
-    return None
+    fr = _frac(v)
+    if fr is None:
+        return None
+    try:
+        return float(fr)
+    except OverflowError:
+        return 1.7976931348623157e308 if fr > 0 else -1.7976931348623157e308
+
+
+HUGE = 10 ** 300
+
+
+def _squeeze(tree):
+    """Replace exact Fractions by floats, order-preservingly: values beyond the float range are squeezed below it."""
+    vals = set()
+
+    def collect(t):
+        if isinstance(t, Fraction):
+            vals.add(t)
+        elif isinstance(t, (list, tuple)):
+            for e in t:
+                collect(e)
+        elif isinstance(t, dict):
+            for e in t.values():
+                collect(e)
+    collect(tree)
+    big_pos = sorted(v for v in vals if v > HUGE)
+    big_neg = sorted((v for v in vals if v < -HUGE), reverse=True)
+    mp = {}
+    for i, v in enumerate(big_pos):
+        mp[v] = 1e300 * (2 + i)
+    for i, v in enumerate(big_neg):
+        mp[v] = -1e300 * (2 + i)
+
+    def conv(t):
+        if isinstance(t, Fraction):
+            return mp[t] if t in mp else float(t)
+        if isinstance(t, list):
+            return [conv(e) for e in t]
+        if isinstance(t, tuple):
+            return tuple(conv(e) for e in t)
+        if isinstance(t, dict):
+            return {k: conv(e) for k, e in t.items()}
+        return t
+    return conv(tree)
 
 
 def concretize(named, zm, cap=64):
@@ -109,7 +160,8 @@ def concretize(named, zm, cap=64):
             return "inf"
         if r.eq(ninf):
             return "-inf"
-        return _num(r)
+        fr = _frac(r)
+        return fr if fr is not None else _num(r)
 
     def val(p):
         if isinstance(p, SF):
@@ -131,7 +183,7 @@ def concretize(named, zm, cap=64):
             out[nm] = [val(p.at(z3.IntVal(i))) for i in range(max(n, 0))]
         elif hasattr(p, "_vcx_concretize"):
             out[nm] = p._vcx_concretize(zm, val, cap)
-    return out
+    return _squeeze(out)
 
 
 class EscapedException(Exception):
